@@ -202,8 +202,14 @@ namespace pika::thread_pool_bulk_detail {
                 // that there is a current exception.
                 void store_exception() const
                 {
+#if defined(PIKA_VERIF)
+                    PIKA_VERIF_POINT(1106, op_state, worker_thread);
+#endif
                     if (!op_state->exception_thrown.exchange(true))
                     {
+#if defined(PIKA_VERIF)
+                        PIKA_VERIF_POINT(1107, op_state, worker_thread);
+#endif
                         // NOLINTNEXTLINE(bugprone-throw-keyword-missing)
                         op_state->exception = std::current_exception();
                     }
